@@ -2916,14 +2916,16 @@ Definition pyex_nocrc_o : pwopts :=
   {| po_chunk_size := 100; po_idx_att := true; po_idx_chunk := true; po_idx_msg := true; po_idx_md := true;
      po_repeat_channels := true; po_repeat_schemas := true; po_chunking := true; po_statistics := true;
      po_summary_offsets := true; po_crcs := false; po_data_crcs := false |}.
+Definition pyex_nocrc_bytes : bytes :=
+  match py_write pyex_nocrc_o pyex_calls with POk b => b | _ => [] end.
 Example pyex_nocrc_lexed :
-  exists b evs st,
-    py_write pyex_nocrc_o pyex_calls = POk b
-    /\ b = render (py_trace pyex_nocrc_o pyex_calls)
-    /\ lex_all (pyex_lo true CbFull) ds_id 40 (src_of b false) = Ok (evs, EEOF, st)
+  exists evs st,
+    py_write pyex_nocrc_o pyex_calls = POk pyex_nocrc_bytes
+    /\ pyex_nocrc_bytes = render (py_trace pyex_nocrc_o pyex_calls)
+    /\ lex_all (pyex_lo true CbFull) ds_id 40 (src_of pyex_nocrc_bytes false) = Ok (evs, EEOF, st)
     /\ evs = file_events (pyex_lo true CbFull) ds_id (py_trace pyex_nocrc_o pyex_calls)
     /\ filter (ev_op OpMessage) evs = map (fun m => EvToken OpMessage (enc_message m)) (msgs_of pyex_cs).
-Proof. eexists. eexists. eexists. vm_compute. repeat split. Qed.
+Proof. eexists. eexists. vm_compute. repeat split. Qed.
 
 (* ====================================================================== *)
 (** * 5. combined statements, as restated in properties/C16_pywrite.v *)
